@@ -180,7 +180,7 @@ func cmdBatch(args []string) int {
 	out := fs.String("out", ".", "output directory")
 	nsites := fs.Int("sites", 4096, "number of yield sites")
 	free := fs.Bool("free", false, "uncontrolled mode for every run")
-	wdog := fs.Float64("watchdog", 25, "seconds without progress before giving up")
+	wdog := fs.Float64("watchdog", 8, "seconds without progress before giving up")
 	maxViol := fs.Int("maxviol", 12, "violating runs to record")
 	tag := fs.String("tag", "", "suffix of the output file names (default: worker index)")
 	auditEvery := fs.Int("audit", 20, "repeat the reference pass of every n-th run in a fresh process (0 = never)")
